@@ -18,12 +18,24 @@ from core_codemods.semgrep.api import SemgrepCodemod, semgrep_url_from_id
 class RemoveCsrfExemptTransformer(LibcstResultTransformer, NameResolutionMixin):
     change_description = "Remove `@csrf_exempt` decorator from Django view"
 
+    def filter_by_result(self, node) -> bool:
+        """
+        The findings reported for this rule span the whole decorated function
+        (starting at its first decorator), not the `@csrf_exempt` decorator itself.
+        """
+        if self.results is None:
+            return True
+        line = self.node_position(node).start.line
+        return any(
+            location.start.line <= line <= location.end.line
+            for result in self.results
+            for location in result.locations
+        )
+
     def leave_Decorator(
         self, original_node: cst.Decorator, updated_node: cst.Decorator
     ):
-        if not self.filter_by_path_includes_or_excludes(
-            self.node_position(original_node)
-        ):
+        if not self.node_is_selected(original_node):
             return updated_node
 
         if (
